@@ -9,6 +9,9 @@ PROP = "C05"
 def run(tier: str, seed: int) -> int:
     n = K.N_QUICK if tier == "quick" else K.N_THOROUGH
     cases = gen_cases(PROP, n, seed, K.MONITORS, K.features, **K.COMMON)
+    # corpus first: runs in which a rejected pair is immediately followed by a failed line search and a memory reset
+    from harness.gen import reset_corpus_cases
+    cases = reset_corpus_cases(K.MONITORS, [seed * 1_000_003 + 800_000 + i for i in range(n // 12)]) + cases
     # the stagnation regime: no tolerance stops the run, so the last iterations move the point by a few units in the last
     # place — where a memo keyed on "almost the same point" would serve the neighbour's value
     import random
